@@ -437,12 +437,18 @@ func execC17(body json.RawMessage) *kernel.Result {
 				} else {
 					text = fmt.Sprintf("{%s[%%%s] = %s}", target, op.Field, src)
 				}
+			case "strkey":
+				// the field named by a string instead of a symbol
+				text = fmt.Sprintf("(hset %s %q %s)", target, op.Field, src)
 			default:
 				text = fmt.Sprintf("(hset %s %s: %s)", target, op.Field, src)
 			}
 			before := show(h)
 			o := ev(e, text)
 			t, declared := in.def[op.Field]
+			if op.Route == "strkey" {
+				declared = false // fields are named by symbols; a string key names no declared field
+			}
 			wellTyped := declared && fits(op.Kind, t)
 			res.Sig(fmt.Sprintf("%s|%s|%s->%s|ok=%v", op.Op, op.Route, op.Kind, t, o.OK()))
 			if o.Panicked {
@@ -650,7 +656,7 @@ func genC17(r *kernel.RNG, tier string, i int) interface{} {
 			if r.Chance(0.08) {
 				op.Field = "Zed"
 			}
-			op.Route = r.Pick([]string{"hset", "dot", "infix", "index"})
+			op.Route = r.Pick([]string{"hset", "dot", "infix", "index", "hset", "strkey"})
 			if op.Op == "pwrite" {
 				found := false
 				for p := 0; p < 2; p++ {
